@@ -7,7 +7,8 @@
    vid_to_bit = convertVerticallIDToBit; bit_to_vid = convertBitToVerticalID; vox_alt f v = float64(f)*2^25/2^v. *)
 From Coq Require Import ZArith Reals Lia Floats List Bool String.
 From Flocq Require Import Core.
-From SID Require Import Base Str Ids Wire F64 ExactRef PointF BitAlt BitAltRef BitAltR BitAltF BitAltV BitAltT DC17.
+From SIDGen Require Import GeneratedF.
+From SID Require Import Base Str Ids Wire F64 ExactRef PointF BitAlt BitAltRef BitAltR BitAltF BitAltV BitAltT DC17 GenC17.
 Import ListNotations.
 Open Scope Z_scope.
 
@@ -266,7 +267,89 @@ Theorem C17_history_one_verdict_per_step : forall oracle steps obs, List.length 
 Proof. exact seq_judge_length. Qed.
 Print Assumptions C17_history_one_verdict_per_step.
 
+(* ---------- 11. THE SAME RESULTS OVER THE DEFINITIONS REGENERATED FROM THE GO SOURCE (coq/generated/GeneratedF.v, rewritten by the translator on
+   every run; GenC17.v rewrites with the gen_ lemmas of GenEqFBit.v / GenEqFPoint.v). gen_top / gen_bottom = the locals spatialIDMaxHeight /
+   spatialIDMinHeight of convertVerticallIDToBit; gen_calcBitIndex = the generated loop body of calcBitIndex iterated `zoom` times from 0 (the
+   loop header itself is not regenerated); gen_cell_top / gen_cell_bottom = maxAltitude / minAltitude of convertBitToVerticalID; gen_vindex =
+   the local vIndex of getVerticalTileIdOnAltitude. A semantic edit of one of these kernels breaks these theorems. ---------- *)
+Theorem C17_gen_loop_is_model : forall (alt : pfloat) zoom (mx mn : pfloat), gen_calcBitIndex alt zoom mx mn = calc_bit_index alt zoom mx mn.
+Proof. exact gen_calcBitIndex_eq. Qed.
+Print Assumptions C17_gen_loop_is_model.
+Theorem C17_gen_index_always_in_range : forall (alt : pfloat) zoom (mx mn : pfloat), 0 <= zoom -> 0 <= gen_calcBitIndex alt zoom mx mn < 2 ^ zoom.
+Proof. exact gen_index_in_range. Qed.
+Print Assumptions C17_gen_index_always_in_range.
+Theorem C17_gen_index_monotone : forall (a1 a2 : pfloat) zoom (mx mn : pfloat), (a1 <=? a2)%float = true ->
+  gen_calcBitIndex a1 zoom mx mn <= gen_calcBitIndex a2 zoom mx mn.
+Proof. exact gen_index_monotone. Qed.
+Print Assumptions C17_gen_index_monotone.
+Theorem C17_gen_voxel_faces_exact : forall v f oz (mx mn : pfloat), 0 <= v <= 35 -> Z.abs f < 2 ^ 52 ->
+  val (gen_bottom v f oz mx mn) = (IZR f * bpow radix2 (25 - v))%R /\ fin (gen_bottom v f oz mx mn) /\
+  val (gen_top v f oz mx mn) = (IZR (f + 1) * bpow radix2 (25 - v))%R /\ fin (gen_top v f oz mx mn).
+Proof. exact gen_faces_exact. Qed.
+Print Assumptions C17_gen_voxel_faces_exact.
+Theorem C17_gen_forward_is_contiguous_run : forall v f oz (mx mn : pfloat), 0 <= v <= 35 -> Z.abs f < 2 ^ 52 -> 0 <= oz ->
+  let lo := gen_calcBitIndex (gen_bottom v f oz mx mn) oz mx mn in
+  let hi := gen_calcBitIndex (gen_top v f oz mx mn) oz mx mn in
+  vid_to_bit v f oz mx mn = run_of hi lo /\
+  0 <= lo <= hi /\ hi < 2 ^ oz /\ NoDup (run_of hi lo) /\ forall x, In x (run_of hi lo) <-> lo <= x <= hi.
+Proof. exact gen_forward_is_contiguous_run. Qed.
+Print Assumptions C17_gen_forward_is_contiguous_run.
+Theorem C17_gen_index_exact_on_dyadic_ranges : forall (alt mx mn : pfloat) (a b e zoom : Z),
+  fin alt -> fin mx -> fin mn -> val mn = (IZR a * bpow radix2 e)%R -> val mx = (IZR b * bpow radix2 e)%R -> a < b ->
+  0 <= zoom -> Z.abs a * 2 ^ zoom < 2 ^ 51 -> Z.abs b * 2 ^ zoom < 2 ^ 51 -> -1074 <= e - zoom -> e + 54 <= 1024 ->
+  gen_calcBitIndex alt zoom mx mn = clampZ 0 (2 ^ zoom - 1) (Zfloor ((val alt - val mn) / (val mx - val mn) * IZR (2 ^ zoom))).
+Proof. exact gen_index_exact_on_dyadic_ranges. Qed.
+Print Assumptions C17_gen_index_exact_on_dyadic_ranges.
+Theorem C17_gen_forward_equals_reference_on_dyadic_ranges : forall v f oz (mx mn : pfloat) (a b e : Z),
+  0 <= v <= 35 -> Z.abs f < 2 ^ 52 -> 0 <= oz ->
+  fin mx -> fin mn -> val mn = (IZR a * bpow radix2 e)%R -> val mx = (IZR b * bpow radix2 e)%R -> a < b ->
+  Z.abs a * 2 ^ oz < 2 ^ 51 -> Z.abs b * 2 ^ oz < 2 ^ 51 -> -1074 <= e - oz -> e + 54 <= 1024 ->
+  (gen_calcBitIndex (gen_bottom v f oz mx mn) oz mx mn, gen_calcBitIndex (gen_top v f oz mx mn) oz mx mn) = fwd_ref v f oz (a, e) (b, e).
+Proof. exact gen_forward_equals_reference_on_dyadic_ranges. Qed.
+Print Assumptions C17_gen_forward_equals_reference_on_dyadic_ranges.
+Theorem C17_gen_float_equals_exact_everywhere_refuted :
+  exists (mx mn : pfloat) dmn dmx, dyadic mn = Some dmn /\ dyadic mx = Some dmx /\ range_ok dmn dmx = true /\
+    gen_calcBitIndex (gen_bottom 20 0 1 mx mn) 1 mx mn = 1 /\ idx_ref (vox_dy 0 20) dmn dmx 1 = 0.
+Proof. exact gen_float_differs_witness. Qed.
+Print Assumptions C17_gen_float_equals_exact_everywhere_refuted.
+(* reverse direction *)
+Theorem C17_gen_reverse_indices_are_model : forall vz k oz (mx mn : pfloat),
+  bit_to_vid_idx vz k oz mx mn =
+  match Ztrunc_f (gen_vindex (gen_cell_top vz k oz mx mn) oz), Ztrunc_f (gen_vindex (gen_cell_bottom vz k oz mx mn) oz) with
+  | Some hi, Some lo => Some (hi, lo)
+  | _, _ => None
+  end.
+Proof. exact gen_bit_to_vid_idx_eq. Qed.
+Print Assumptions C17_gen_reverse_indices_are_model.
+Theorem C17_gen_vertical_index_is_exact_floor : forall (a : pfloat) oz, 0 <= oz <= 35 -> alt_ok a oz ->
+  Ztrunc_f (gen_vindex a oz) = Some (Zfloor (val a * bpow radix2 (oz - 25))).
+Proof. exact gen_vertical_index_is_exact_floor. Qed.
+Print Assumptions C17_gen_vertical_index_is_exact_floor.
+Theorem C17_gen_reverse_equals_reference_on_dyadic_ranges : forall (vz k oz : Z) (mx mn : pfloat) (a b e : Z),
+  0 <= vz <= 35 -> 0 <= oz <= 35 -> fin mx -> fin mn -> val mn = (IZR a * bpow radix2 e)%R -> val mx = (IZR b * bpow radix2 e)%R ->
+  Z.abs k <= 2 ^ (vz + 1) -> (Z.abs a + Z.abs b) * 2 ^ (vz + 2) < 2 ^ 53 -> -900 <= e - vz -> e + 60 <= 1024 ->
+  (IZR (Z.abs a + Z.abs b) * bpow radix2 (e + 2 + (oz - 25)) < bpow radix2 52)%R ->
+  val (gen_cell_bottom vz k oz mx mn) = dval (cell_dy k vz (a, e) (b, e)) /\
+  val (gen_cell_top vz k oz mx mn) = dval (cell_dy (k + 1) vz (a, e) (b, e)) /\
+  (Ztrunc_f (gen_vindex (gen_cell_bottom vz k oz mx mn) oz), Ztrunc_f (gen_vindex (gen_cell_top vz k oz mx mn) oz)) =
+  (let '(lo, hi) := rev_ref vz k oz (a, e) (b, e) in (Some lo, Some hi)).
+Proof. exact gen_reverse_equals_reference_on_dyadic_ranges. Qed.
+Print Assumptions C17_gen_reverse_equals_reference_on_dyadic_ranges.
+Theorem C17_gen_reverse_equals_exact_everywhere_refuted :
+  exists (mx mn : pfloat) dmn dmx, dyadic mn = Some dmn /\ dyadic mx = Some dmx /\ range_ok_rev dmn dmx 5 14 = true /\
+    Ztrunc_f (gen_vindex (gen_cell_bottom 5 14 35 mx mn) 35) = Some 192 /\ Ztrunc_f (gen_vindex (gen_cell_top 5 14 35 mx mn) 35) = Some 198 /\
+    rev_ref 5 14 35 dmn dmx = (191, 198).
+Proof. exact gen_reverse_differs_witness. Qed.
+Print Assumptions C17_gen_reverse_equals_exact_everywhere_refuted.
+
 (* ---------- non-vacuity ---------- *)
+(* the generated loop on the unit-test literals; the generated faces of 16/-1 in [-256,768) at zoom 4 (cells 0..4); the generated bounds of cell
+   85 of 2^8 of [0,1000] at output zoom 26 (indices 664..671). The dyadic hypotheses are those of C17_ex_dyadic_hypotheses / _reverse_hypotheses. *)
+Example C17_ex_generated :
+  gen_calcBitIndex 256 10 500 0 = 524 /\ gen_calcBitIndex 0 10 256 (-256) = 512 /\ gen_calcBitIndex (-200) 10 0 (-500) = 614 /\
+  gen_calcBitIndex (gen_bottom 16 (-1) 4 768 (-256)) 4 768 (-256) = 0 /\ gen_calcBitIndex (gen_top 16 (-1) 4 768 (-256)) 4 768 (-256) = 4 /\
+  Ztrunc_f (gen_vindex (gen_cell_bottom 8 85 26 1000 0) 26) = Some 664 /\ Ztrunc_f (gen_vindex (gen_cell_top 8 85 26 1000 0) 26) = Some 671.
+Proof. exact gen_examples. Qed.
 (* a two-step history: the second step (calcBitIndex 256 10 500 0, observed 524) gets the verdict of the standalone call, which accepts it;
    a wrong observation (523) in the same place is rejected, whatever the first step was *)
 Example C17_ex_history :
